@@ -174,9 +174,25 @@ def run_atomic(res, work, tier, seed):
         runs.append({"run": rid, "cfg": cfg, "ops": []})
     B = 3000
     illegal = []
+    nontrivial = 0
     for i in range(0, len(runs), B):
         batch = runs[i:i + B]
         trace = core.drive("atomic", batch, work, "atomic%d" % i)
+        # coverage statistic: executions in which some load read a stale message or a snapshot retried
+        with open(trace) as f:
+            nmsg, hit = {}, False
+            for line in f:
+                e = json.loads(line)
+                if e["ev"] == "reset":
+                    nmsg, hit = {}, False
+                elif e["ev"] == "op" and e["kind"] == "store":
+                    nmsg[e["loc"]] = nmsg.get(e["loc"], 1) + 1
+                elif e["ev"] == "op" and e["kind"] == "load" and e["rf"] < nmsg.get(e["loc"], 1):
+                    hit = True
+                elif e["ev"] == "ret" and e["r"].get("k") == "snap" and e["nops"] > 4:
+                    hit = True
+                elif e["ev"] == "end" and hit:
+                    nontrivial += 1
         tv = tlc.validate_trace("AtomicTrace", "AtomicTrace.cfg", trace, os.path.join(work, "tv"), timeout=3000, xmx="8g")
         illegal += tv["drift"]
         tv["drift"] = []
@@ -189,7 +205,8 @@ def run_atomic(res, work, tier, seed):
             "reads-from index) + %d seeded random schedules x reads-from choices over %d thread programs (RA and SC, about a "
             "third with the writers parked at a random point and readers / try_update run alone)" % (n_script, n_rand, len(menu)))
     for p in ("C13", "C18"):
-        res.data["witness"][p] = {"count": len(runs), "rule": rule}
+        res.data["witness"][p] = {"count": nontrivial, "rule": "executions (of %d) in which a load read a stale message "
+                                  "(not the latest in modification order) or a snapshot had to retry; " % len(runs) + rule}
     res.data["samples"]["*"] = [{k: v for k, v in runs[0]["cfg"].items()}, runs[-1]["cfg"]]
 
 
